@@ -31,13 +31,12 @@ def _validate_ref_props(props_map, is_observable20=False):
     else:
         ref_prop_type = ReferenceProperty
     for prop_name, prop_obj in props_map.items():
-        tail = prop_name.rsplit("_", 1)[-1]
-        if tail == "ref" and not isinstance(prop_obj, ref_prop_type):
+        if prop_name.endswith("_ref") and not isinstance(prop_obj, ref_prop_type):
             raise ValueError(
                 f"{prop_name!r} is named like a reference property but is not "
                 f"a subclass of {ref_prop_type.__name__!r}.",
             )
-        elif tail == "refs" and not (
+        elif prop_name.endswith("_refs") and not (
             isinstance(prop_obj, ListProperty)
             and isinstance(prop_obj.contained, ref_prop_type)
         ):
